@@ -532,15 +532,16 @@ impl<'p, W, R, T> CompilationScope<'p, W, R, T> {
         &self.ancestor_at_depth(depth).forwards[freq.ref_idx]
     }
 
-    /// the first unfulfilled forward function behind a requirement: the forward function itself, or - when it has
-    /// been implemented - one that its implementation (transitively) depends on. A function that was defined
+    /// the unfulfilled forward functions behind a requirement: the forward function itself, or - when it has
+    /// been implemented - every one that its implementation (transitively) depends on. A function that was defined
     /// while `freq` was pending only recorded `freq`; what the later implementation of `freq` needs counts too
     pub(crate) fn unfulfilled_behind(
         &self,
         freq: &ForwardRefRequirement,
-    ) -> Option<ForwardRefRequirement> {
+    ) -> Vec<ForwardRefRequirement> {
         let mut pending = vec![*freq];
         let mut seen = BTreeSet::new();
+        let mut missing = Vec::new();
         while let Some(freq) = pending.pop() {
             if !seen.insert(freq) {
                 continue;
@@ -548,7 +549,8 @@ impl<'p, W, R, T> CompilationScope<'p, W, R, T> {
             let owner = self.ancestor_at_depth(self.height - freq.ancestor_height);
             let fref = &owner.forwards[freq.ref_idx];
             if !fref.fulfilled {
-                return Some(freq);
+                missing.push(freq);
+                continue;
             }
             if let Some(Cell::Variable {
                 forward_requirements,
@@ -558,7 +560,7 @@ impl<'p, W, R, T> CompilationScope<'p, W, R, T> {
                 pending.extend(forward_requirements.iter().cloned());
             }
         }
-        None
+        missing
     }
 
     fn require_forwards(
@@ -566,7 +568,9 @@ impl<'p, W, R, T> CompilationScope<'p, W, R, T> {
         refs: impl IntoIterator<Item = ForwardRefRequirement>,
     ) -> Result<(), CompilationError> {
         for freq in refs {
-            if let Some(missing) = self.unfulfilled_behind(&freq) {
+            // every unfulfilled function behind the requirement is recorded: when one of them gets implemented
+            // the others must not be forgotten
+            for missing in self.unfulfilled_behind(&freq) {
                 if missing.ancestor_height == self.height {
                     let fref = self.forward_ref(&missing);
                     return Err(CompilationError::MissingForwardImplementation {
@@ -1134,7 +1138,7 @@ impl<'p, W, R, T> CompilationScope<'p, W, R, T> {
                 {
                     forward_requirements
                         .iter()
-                        .all(|r| self.unfulfilled_behind(r).is_none())
+                        .all(|r| self.unfulfilled_behind(r).is_empty())
                 } else {
                     true
                 }
